@@ -502,6 +502,7 @@ KNOWN_REPLAYS = [
     ["F f x : g ( x )", "F g x : f ( x )", "T f ( 1 )", "end"],                      # F63 mutual recursion: hang
     ["F f x : g ( x )", "F g x : f ( x ) x", "T f ( 1 )", "end"],                    # F63 mutual recursion: wrong tokens
     ["D X : 1", "IF defined X", "T yes", "ENDIF", "end"],                            # F64 `defined X` without parentheses
+    ["F f x : [ x ]", "D E :", "T f E ( 1 )", "end"],                                # F65 the token after a function-like name is expanded first
     ["IF 1 ? 0 : 1 ? 1 : 1", "T a", "ENDIF", "T c", "end"],                           # N5 (C15's) nested ?: is left-nested
     ["IF 0 + ! 1", "T a", "ENDIF", "IF 1 - - 1 == 2", "T b", "ENDIF", "end"],        # N3 (C15's) binary op before a unary op
     ["IF ~ ( 1 < 2 )", "T a", "ENDIF", "T c", "end"],                                # C14's: ~bool is !bool
@@ -559,10 +560,17 @@ def main(argv):
                     hs.append(damage(ck.rng, u, feat) + ["end"])
                     continue
                 refs[len(hs)] = out
-                hs.append(u + ["expect %s ok %s" % (fnv1a(unit_source(u)), " ; ".join(out) or "-"), "end"])
+                hs.append(u + ["expect %s ok %s" % (fnv1a(unit_source(u)), " <NL> ".join(out) or "-"), "end"])
         ck.cov["counters"]["units_rejected_by_cpp_filter"] = rejected
         known = KNOWN_REPLAYS
     env = {"VERIF_BUILD": BUILD}
+    if os.environ.get("VERIF_C13_DUMP"):
+        # development aid (mutation experiments with hand-linked harness binaries): write the histories and stop
+        with open(os.environ["VERIF_C13_DUMP"], "w") as f:
+            for i, h in enumerate(hs + list(known)):
+                f.write("# %d\n%s\n" % (i, "\n".join(h)))
+        print("dumped %d histories" % (len(hs) + len(known)))
+        sys.exit(0)
     nontriv = lambda h, obs: any(o.startswith("out=") and not o.startswith("out=- ") for o in obs)
     ck.correspond(hb, db, hs, label="units", env=env, nontrivial=nontriv, timeout=1500,
                   ubsan_is_violation=r"preprocessor\.cpp|macro\.cpp|primitive\.cpp|expr/")
@@ -575,7 +583,7 @@ def main(argv):
         mo = ck.run_model(db, refh, timeout=900)
         bad = 0
         for i, h, o in zip(idx, refh, mo):
-            want = "ref=" + (" ; ".join(refs[i]) or "-")
+            want = "ref=" + (" <NL> ".join(refs[i]) or "-")
             got = o[-1] if o else "MISSING"
             if got != want:
                 bad += 1
